@@ -60,7 +60,7 @@ class Gen:
         return self.obs[o]["node"] is not None
 
     def vnodes(self):
-        return [k for k, n in enumerate(self.nodes) if not n["pair"]]
+        return [k for k, n in enumerate(self.nodes) if not n["pair"] and not n.get("gone")]
 
     def pick(self, below=None):
         ks = [k for k in self.vnodes() if below is None or k < below]
@@ -539,6 +539,32 @@ class Gen:
             self.act("stabilise")
         self.count("motif_var_dropped_in_closure")
 
+    def motif_var_dies_in_stabilise(self):
+        """the LAST handle of a variable is given up by a node function, i.e. during a stabilise, after the program has
+        dropped its own handle on the watch node and nothing depends on it: that ONE stabilise must release the variable
+        and its watch node (the Var <-> watch cycle is broken at the end of the stabilise in which the variable died;
+        seeded change c12-dead-vars-broken-at-start)"""
+        rng = self.rng
+        self.mk_var(); x = len(self.nodes) - 1; vx = self.nodes[x]["var"]
+        self.mk_var(); t = len(self.nodes) - 1; vt = self.nodes[t]["var"]
+        self.vars[vx]["alive"] = False          # from now on only the closure below touches it
+        self.nodes[x]["gone"] = True
+        effs = [f"dropvar v{vx}"]
+        if rng.random() < 0.5:
+            effs.insert(0, rng.choice([f"setvar v{vx} {rng.randint(0, 4)}", f"modvar v{vx} {rng.randint(1, 3)}"]))
+        fa = self.new_fn(1, effs)
+        self.act(f"map f{fa} n{t}"); a = self.add_node("map")
+        self.act(f"drophandle n{x}")
+        self.act(f"observe n{a}")
+        self.obs.append({"node": a, "clones": 1, "dis": False})
+        self.act("stabilise")                    # the closure runs: the variable dies during this stabilise
+        self.act("isstable")
+        self.act("stats")
+        if rng.random() < 0.5:
+            self.act(f"modify v{vt} 1")          # the closure runs again: its effects are now no-ops
+            self.act("stabilise")
+        self.count("motif_var_dies_in_stabilise")
+
     def motif_equal_deferred_write(self):
         """a variable with a non-default cutoff is written, from inside a node function, with the value it already has:
         the write must still reach the graph at the next stabilise (with `never` its dependants run again)"""
@@ -898,6 +924,8 @@ class Gen:
                 self.motif_dependon_reobserve()
             elif r < 0.7:
                 self.motif_mapref()
+            elif 0.75 < r <= 0.80 and self.profile in ("general", "bind", "varw") and not self.c01_safe:
+                self.motif_var_dies_in_stabilise()
             elif r < 0.85:
                 self.motif_cutoff_reobserve()
         weights = {
